@@ -171,6 +171,26 @@ def check_clone_bodies(rep, fb, crates=None):
                     rep.ob("own.clone-fieldwise", inst + (("[" + tag + "]") if tag else ""), ok, detail, loc_of(body))
                 except Undecided as e:
                     rep.undecided("own.clone-fieldwise", inst, str(e), loc_of(body))
+            # an overridden clone_from must leave *self equal to the source as well
+            cf = None
+            for b in cr.bodies_of_impl(im):
+                if b["name"] == "clone_from":
+                    cf = b
+            if cf is not None:
+                ctx, F, tag = ctxs[0]
+                try:
+                    ip, paths = run_plain(fb, cr, cf, ["dst", "src"], ctx, F)
+                    ok = len(paths) == 1
+                    detail = "clone_from(&mut self, src) leaves *self equal to *src field by field"
+                    if ok:
+                        d, s_ = paths[0]["cells"].get("dst"), paths[0]["cells"].get("src")
+                        ok = d is not None and s_ is not None and values_equal(d, s_, paths[0]["F"])
+                        if not ok:
+                            from .kernels import show_value
+                            detail = "after clone_from: self = %s, source = %s" % (show_value(d), show_value(s_))
+                    rep.ob("own.clone-fieldwise", inst + "::clone_from", ok, detail, loc_of(cf))
+                except Undecided as e:
+                    rep.undecided("own.clone-fieldwise", inst + "::clone_from", str(e), loc_of(cf))
 
 
 # ---------------------------------------------------------------- C17
